@@ -104,6 +104,10 @@ def scalars(tier):
         S("str", call("ab"), ln(2)), S("str", call("ab"), ("alphabet", "abc")),
         S("str", call("ab"), ("contains", "b")), S("str", call("ab"), ln(1, 3)),
         S("str", ln(2), ("alphabet", "")), S("str", ("contains", "c"), ("alphabet", "ab")),
+        # falsy constraints next to a pattern (declaration rejects them today; were it to accept
+        # them, generation and validation would have to agree)
+        S("str", ln(0), ("regex", "a*")), S("str", ("alphabet", ""), ("regex", "a*")),
+        S("str", ("contains", ""), ("regex", "a+")),
         S("str", ln(1), ("contains", "ab")),
     ]
     if T:
@@ -139,7 +143,7 @@ def children(tier):
     return K
 
 
-LEN_FORMS = [(), (ln(0),), (ln(2),), (ln(1, 3),), (ln(17, E),), (ln(E, 1),)]
+LEN_FORMS = [(), (ln(0),), (ln(2),), (ln(1, 3),), (ln(17, E),), (ln(E, 1),), (ln(E, 0),), (ln(0, 0),)]
 
 
 def containers_over(K, K4, tier):
